@@ -53,7 +53,14 @@ let handle_xargs words =
     let c = { XArgs.c_n = opt_n n; c_L = opt_n l; c_s = opt_n s; c_x = (x = "1"); c_r = (r = "1");
               c_sys = XArgs.sys_budget (n_of_int (int_of_string argmax)) env;
               c_init = Stdlib.List.map (fun v -> n_of_int (int_of_string v)) (list_of init);
-              c_replace = (repl = "1") } in
+              c_replace = (repl <> "0");
+              (* "1:<|R|>:<occurrences of R in each of the command and initial arguments>": the lengths once a line is put in *)
+              c_subst = (let lens = Stdlib.List.map int_of_string (list_of init) in
+                         match split_on ':' repl with
+                         | [_; rlen; occs] ->
+                           let occs = Stdlib.List.map int_of_string (split_on '.' occs) in
+                           (fun len -> Stdlib.List.map2 (fun l o -> n_of_int (l + o * (int_of_n len) - o * (int_of_string rlen))) lens occs)
+                         | _ -> (fun _ -> Stdlib.List.map n_of_int lens)) } in
     let args = Stdlib.List.mapi (fun i a -> match split_on ':' a with
         | [len; k] -> { XArgs.aid = n_of_int i; alen = n_of_int (int_of_string len);
                         akind = (if k = "h" then XArgs.Hard else XArgs.Soft) }
